@@ -13,9 +13,13 @@ Conventions.
 * Nodes are addressed by their index in `Net.nodes`; an IP address is the index of the node that owns it
   (an address nobody owns = an index past the end).
 * uuids (session ids = connection ids) are fresh naturals from `Net.nextId`.
-* A frame from node `x` to node `y` on the terminal's port is delivered iff both NICs are enabled and the terminal
-  of `y` is RUNNING (HostNode.receive_frame drops frames for closed ports); replies are sent synchronously inside
-  the delivery, exactly like the code does.  Switches/links in between are taken to be up (the rig uses one switch).
+* A frame from node `x` to node `y` on the terminal's port is delivered iff both NICs are enabled, the terminal
+  of `y` is RUNNING (HostNode.receive_frame drops frames for closed ports) and the direction `x → y` is not blocked
+  (`Net.blocked`: a per-direction reachability input standing for whatever lies between the two hosts — a router ACL that
+  denies port 22 / the address pair in that direction; the rig drives it with DENY rules on a real router).  Requests and
+  replies are separate frames, so a request may arrive while its reply is dropped ("half-open" outcomes).  Replies are
+  sent synchronously inside the delivery, exactly like the code does.  Switches/links/routers in between are otherwise
+  taken to be up and ARP to resolve (validated by the rig on one switch and on a routed topology).
 * `Terminal._connections` is ONE dictionary holding client-side, server-side and local connection objects; the model
   keeps one list with dictionary semantics (`putConn` replaces an existing key in place).
 * The model follows the repaired code (fix commits on branch fix-C16):
@@ -108,6 +112,11 @@ structure Net where
   nextId : Nat := 0
   /-- set if a fuel-bounded recursion ran out of fuel (never observed; printed by the driver so the rig would see it) -/
   stuck : Bool := false
+  /-- directed pairs `(x, y)`: frames from node `x` to node `y` are dropped on the way (router ACL) -/
+  blocked : List (Nat × Nat) := []
+  /-- a frame a host addresses to its own IP comes back to it (routed topology: the host hands it to its default gateway, which
+  routes it back — subject to the ACL like any other frame); on one switch nobody answers the ARP request and it is never sent -/
+  hairpin : Bool := false
 deriving Repr
 
 inductive Out | success | failure | unreachable
@@ -146,12 +155,18 @@ inductive Op
   | req (y : Nat) (c : Cmd)
   /-- `UserManager.enable_user` (Python API; no request exists) -/
   | enableUser (y : Nat) (u : String)
+  /-- `UserManager.add_user(u, p, is_admin, bypass_can_perform_action=True)` (Python API: how `Node.__init__` and
+  `PrimaiteGame.from_config` load the configured users; no guard on node power or service state) -/
+  | addUserBypass (y : Nat) (u p : String) (admin : Bool)
   /-- `Node.local_login` (Python API) -/
   | localLogin (y : Nat) (u p : String)
   /-- `Node.local_logout` (Python API) -/
   | localLogout (y : Nat)
   /-- end of one environment step and start of the next: `apply_timestep(t+1)` then `pre_timestep(t+1)` -/
   | tick
+  /-- the network between the hosts starts (`on = true`) / stops dropping frames from `x` to `y`
+  (router `acl add_rule DENY … src = ip(x) dst = ip(y)` / `acl remove_rule`) -/
+  | setBlock (x y : Nat) (on : Bool)
 deriving Repr
 
 /-! ### list-of-nodes plumbing -/
@@ -316,10 +331,13 @@ def Node.applyTimestep (nd : Node) : Node := nd.bootPhase.shutPhase.svcPhase
 
 /-! ### the network path -/
 
+/-- the direction `x → y` is open -/
+def Net.open (n : Net) (x y : Nat) : Bool := !n.blocked.contains (x, y)
+
 /-- a frame from `x` to the terminal port of `y` arrives and is accepted -/
 def canDeliver (n : Net) (x y : Nat) : Bool :=
   match n.node x, n.node y with
-  | some a, some b => x != y && a.nic && b.nic && b.term.running
+  | some a, some b => (x != y || n.hairpin) && a.nic && b.nic && b.term.running && n.open x y
   | _, _ => false
 
 def Net.totalConns (n : Net) : Nat := (n.nodes.map (fun nd => nd.conns.length)).sum
@@ -499,6 +517,14 @@ def opEnableUser (n : Net) (y : Nat) (u : String) : Net × Out :=
     | none => (n, .failure)
     | some w => if w.disabled then (n.upd y (Node.setEnabled u), .success) else (n, .failure)
 
+/-- `UserManager.add_user(..., bypass_can_perform_action=True)`: only the name check is left -/
+def opAddUserBypass (n : Net) (y : Nat) (u p : String) (adm : Bool) : Net × Out :=
+  match n.node y with
+  | none => (n, .unreachable)
+  | some nd =>
+    if (nd.findUser u).isNone then (n.upd y (Node.addUser { name := u, password := p, admin := adm }), .success)
+    else (n, .failure)
+
 /-- `_process_local_login`, `_create_local_connection`, `LocalTerminalConnection.execute` (only while the terminal is
 RUNNING); `K` = what `Node.apply_request(command)` does; the handler answers "success" whatever happened -/
 def opLocalCmdK (K : Net → Net × Out) (n : Net) (y : Nat) (u p : String) : Net × Out :=
@@ -633,12 +659,19 @@ def execCmd : Cmd → Net → Nat → Net × Out
   | .startup, n, y => opStartup n y
   | .reset, n, y => opReset n y
 
+/-- the ACL edit on the router between the hosts: a set of blocked directions (adding twice = once) -/
+def opSetBlock (n : Net) (x y : Nat) (on : Bool) : Net × Out :=
+  ({ n with blocked := if on then (if n.blocked.contains (x, y) then n.blocked else n.blocked ++ [(x, y)])
+                       else n.blocked.filter (fun p => p != (x, y)) }, .success)
+
 def step (n : Net) : Op → Net × Out
   | .req y c => execCmd c n y
   | .enableUser y u => opEnableUser n y u
+  | .addUserBypass y u p adm => opAddUserBypass n y u p adm
   | .localLogin y u p => opLocalLogin n y u p
   | .localLogout y => opLocalLogout n y
   | .tick => (tick n, .success)
+  | .setBlock x y on => opSetBlock n x y on
 
 def run (n : Net) : List Op → Net
   | [] => n
